@@ -225,6 +225,25 @@ func (c *Channel) JoinPresence(ctx context.Context, p stanza.Presence, opt ...Op
 	case <-ctx.Done():
 		return ctx.Err()
 	}
+	joined := false
+	defer func() {
+		if joined {
+			return
+		}
+		// Nobody completed our hand-off: take it back so that it cannot block a
+		// later call to Join on this channel.
+		select {
+		case pending := <-c.join:
+			if pending.j != joinChan {
+				// Not ours (the handler already took ours), leave it queued.
+				select {
+				case c.join <- pending:
+				default:
+				}
+			}
+		default:
+		}
+	}()
 	go func(errChan chan<- error) {
 		defer cancel()
 
@@ -266,6 +285,7 @@ func (c *Channel) JoinPresence(ctx context.Context, p stanza.Presence, opt ...Op
 	case err := <-errChan:
 		return err
 	case roomAddr := <-joinChan:
+		joined = true
 		c.addr = roomAddr
 	case <-ctx.Done():
 		return ctx.Err()
